@@ -24,17 +24,27 @@ Inductive ccase := CCase (cl : eclass) (ops : list cop) (obs : list (option (str
 Definition slot := (nat * nat * str)%type.
 Definition slot_eqb (a b : slot) : bool := let '(w, kd, k) := a in let '(w', kd', k') := b in Nat.eqb w w' && Nat.eqb kd kd' && beq k k'.
 Definition known (s : slot) (v : str) (l : list (slot * str)) : bool := existsb (fun e => slot_eqb (fst e) s && beq (snd e) v) l.
-Fixpoint own_values (ops : list cop) (obs : list (option (str * option str))) (seen : list (slot * str)) : bool :=
+(* pinned slots (hardcoded, or root from the constructors) never expire: a lookup of one returns the latest pinned value
+   and does not ask the resolver, however much time has passed *)
+Definition pinned_value (s : slot) (pinned : list (slot * str)) : option str :=
+  match find (fun e => slot_eqb (fst e) s) pinned with Some e => Some (snd e) | None => None end.
+Definition is_blank_key (k : str) : bool := isS k "" || isS k "unset".
+Fixpoint own_values (ops : list cop) (obs : list (option (str * option str))) (seen pinned : list (slot * str)) : bool :=
   match ops, obs with
   | [], [] => true
   | CLookup w kd k :: ops', Some (v, asked) :: obs' =>
       let s := (w, kd, k) in
-      match asked with
-      | Some a => beq v a && own_values ops' obs' ((s, a) :: seen)
-      | None => (match v with [] => true | _ => known s v seen end) && own_values ops' obs' seen
+      match pinned_value s pinned with
+      | Some pv => if is_blank_key k then own_values ops' obs' seen pinned
+                   else (match asked with None => beq v pv | Some _ => false end) && own_values ops' obs' seen pinned
+      | None =>
+          match asked with
+          | Some a => beq v a && own_values ops' obs' ((s, a) :: seen) pinned
+          | None => (match v with [] => true | _ => known s v seen end) && own_values ops' obs' seen pinned
+          end
       end
-  | CHard w id name :: ops', None :: obs' => own_values ops' obs' (((w, 0, id), name) :: ((w, 1, name), id) :: seen)
-  | CPause :: ops', None :: obs' => own_values ops' obs' seen
+  | CHard w id name :: ops', None :: obs' => own_values ops' obs' seen (((w, 0, id), name) :: ((w, 1, name), id) :: pinned)
+  | CPause :: ops', None :: obs' => own_values ops' obs' seen pinned
   | _, _ => false
   end.
 Definition pins : list (slot * str) := [((0, 0, L "0"), L "root"); ((0, 1, L "root"), L "0"); ((1, 0, L "0"), L "root"); ((1, 1, L "root"), L "0")].
@@ -55,6 +65,6 @@ Fixpoint all_eqb (ms : list (option (str * bool))) (os : list (option (str * opt
 Definition judge_cache (c : ccase) : N :=
   match c with
   | CCase cl ops obs =>
-      if negb (own_values ops obs pins) then 2%N
+      if negb (own_values ops obs [] pins) then 2%N
       else if all_eqb (crun cl resolver cs0 ops) obs then 0%N else 1%N
   end.
